@@ -16,10 +16,11 @@ LEVEL_NOTE = ("ASSUMED: urllib.parse.urlsplit decomposes its argument as [scheme
               "derived from it by the model lemma urlsplit-positions, discharged every run); unquote_to_bytes / bytes.split / lower / upper as uninterpreted operations with their listed "
               "contracts; trusted string axioms slice-of-slice and upper-of-lower; parse_url requires a non-empty authority after '//' (true of every URL_RE match; parse_url(b'file:///x') "
               "mis-places the path, outside C12 because no URL node is built from it); the host span ends len(decoded host) after its start (equal to the text length for every host that "
-              "survives normalisation). find_urls is proved to hand parse_url a text that meets its preconditions (is_url of the normalised text) and to attach the parts as children inside the node value. NOT proved: the cancellation order of normalize_path, normalize_percent_encoding (ASSUMED contract); find_windows_path is proved for DecoderOK only (C03), its values are bounded (ntpath.normpath)")
+              "survives normalisation). find_urls is proved to hand parse_url a text that meets its preconditions (is_url of the normalised text) and to attach the parts as children inside the node value. NOT proved: the cancellation order of normalize_path, normalize_percent_encoding (ASSUMED contract); find_windows_path is proved for DecoderOK (C03) and for `the file-name child is the last len(filename) bytes of the value`; its value, label and host children are bounded (ntpath.normpath)")
 DESIGN_REF = "DESIGN.md 6 (C12), 14"
 TECHNIQUE = "contract-based deductive verification of parse_url / parse_authority / shift_nodes (pyvc: cut points, lemma instances, z3 + cvc5) + bounded run-time contracts for the rest"
-FUNCTIONS = ["multidecoder.node.shift_nodes", "multidecoder.decoders.network.parse_authority", "multidecoder.decoders.network.normalize_path", "multidecoder.decoders.network.parse_ip", "multidecoder.decoders.network.parse_ipv6", "multidecoder.decoders.network.parse_url", "multidecoder.decoders.network.is_url", "multidecoder.decoders.network.find_urls"]
+FUNCTIONS = ["multidecoder.node.shift_nodes", "multidecoder.decoders.network.parse_authority", "multidecoder.decoders.network.normalize_path", "multidecoder.decoders.network.parse_ip", "multidecoder.decoders.network.parse_ipv6", "multidecoder.decoders.network.parse_url", "multidecoder.decoders.network.is_url", "multidecoder.decoders.network.find_urls", "multidecoder.decoders.path.find_windows_path"]
+DEMOTED = {r"find_windows_path/safe/IndexError@L\d+:list index": "segments[3] / segments[4] of a device path need the shape of ntpath.normpath's result, which is opaque to the encoding; covered by the run-time stand-in"}
 RULE = "cases = generated URLs / paths; distinct = distinct inputs on which the real decoder reported a node that was compared with the reference"
 EXPLANATION = "bounded stand-in"
 BOUNDED = [NO.bounded_normalize_path, NO.bounded_url_parts, NO.bounded_windows_path]
